@@ -549,7 +549,7 @@ func readContractLines(path string) ([]string, []int, error) {
 }
 
 var clauseKeywords = map[string]bool{
-	"func": true, "spec": true, "pureany": true, "purefunc": true, "lemma": true, "axiom": true, "pureiface": true,
+	"func": true, "spec": true, "pureany": true, "purefunc": true, "lemma": true, "axiom": true, "pureiface": true, "final": true,
 	"props": true, "requires": true, "ensures": true, "let": true, "loop": true, "assigns": true,
 	"pure": true, "functional": true, "inline": true, "trusted": true, "callback": true, "ghost": true, "on": true,
 	"maypanic": true, "attr": true, "assume": true, "package": true, "nobody": true, "cover": true, "token": true, "purecall": true,
@@ -725,6 +725,14 @@ func (cs *ContractSet) LoadFile(path, pkgPath string, isSpec bool) error {
 			// pureany Method resulttype
 			mn, rt := firstWord(rest)
 			cs.PureAny[mn] = rt
+			cur = nil
+		case "final":
+			// final Type.field [Type.field ...]: the field is written only while its object is being
+			// constructed (checked over the whole module, zz_final.go); its value survives every call
+			// and every loop
+			for _, f := range strings.Fields(rest) {
+				cs.PureIface["final:"+pkgPath+"."+f] = true
+			}
 			cur = nil
 		case "purefunc":
 			// purefunc Field [Field ...]: function-typed values stored in a field / variable of that
